@@ -2,6 +2,7 @@ import LapyVerif.Props.C07b
 import LapyVerif.Bridge.Fem
 import LapyVerif.Bridge.Spectral2
 import LapyVerif.Bridge.VertexMeasures
+import LapyVerif.Bridge.SolverGlue
 /- axiom audit of C07 -/
 #print axioms LapyVerif.Props.C07.form_heatMat
 #print axioms LapyVerif.Props.C07.form_one_eq_sum_rows
@@ -27,3 +28,8 @@ import LapyVerif.Bridge.VertexMeasures
 #print axioms LapyVerif.Bridge.heat_diagonal
 #print axioms LapyVerif.Bridge.misc_tetavg
 #print axioms LapyVerif.Bridge.vm_avg
+#print axioms LapyVerif.Bridge.glue_heat
+#print axioms LapyVerif.Bridge.glue_heat_keys
+#print axioms LapyVerif.Bridge.glue_heat_rhs
+#print axioms LapyVerif.Bridge.glue_calls
+#print axioms LapyVerif.Bridge.glue_calls_names
